@@ -208,6 +208,20 @@ CHECKS = {
         note="SQL semantics come from the real sqlite3 library; equivalence over arbitrary histories is only sampled; known finding: "
              "auto-insertion is decided by the in-memory registries (two database files).",
         technique="statement-sequence contracts on recorded traces + static reads clause; bounded model-based history testing on real files"),
+    'C06': dict(
+        category='other',
+        text="Contract level (discharged): to_dict(BaseIsotherm(**d)) == d for every key-set shape of token metadata incl. nested material "
+             "dictionaries; model_from_dict(to_dict()) restores name, parameters, ranges and rmse for the 16 models and a static read-set "
+             "obligation shows that every attribute read by loading/pressure/spreading_pressure is restored by the dictionary or by "
+             "__init_parameters__, which ModelIsotherm.__init__ calls for model instances; isotherm_to_json passes sort_keys, writes the same "
+             "document to string and file and marks exactly the rows with branch != 0; from_json rebuilds the branch column. Bounded "
+             "(not counted as proved): real round trips through pandas/json for generated isotherms of the three classes (unit "
+             "configurations, 1-40 points, four branch layouts, numeric/text extra columns, JSON-typed metadata, all 16 models), string "
+             "and file targets, idempotent document.",
+        design_ref='§3 C06',
+        note="The pandas half (to_dict(orient=index), from_dict, fillna/replace, dtypes) is only exercised by the bounded round trips "
+             "(96 quick / 400 thorough); known finding: an all-adsorption assignment on non-monotone data is re-guessed on import.",
+        technique="symmetry contracts by exhaustive evaluation over key-set shapes + static read sets; bounded real round trips"),
 }
 
 NOT_YET = {
